@@ -955,8 +955,18 @@ binary_add_fns: dict[str, BinaryCallable] = {
     "-": lambda x, y: x - y,
 }
 
+def binary_round_fn(
+    x: Union[int, float], y: Union[int, float]
+) -> Union[int, float]:
+    if isinstance(y, int) and abs(y) > 308:
+        # beyond the precision of a double; round() would first compute
+        # 10 ** abs(y)
+        return x if y > 0 else 0
+    return round(x, y)  # type:ignore
+
+
 binary_round_fns: dict[str, BinaryCallable] = {
-    "round": round,  # type:ignore
+    "round": binary_round_fn,
 }
 
 binary_cmp_fns: dict[str, BinaryCallable] = {
@@ -1134,7 +1144,11 @@ def expr_fn(
         return parse_binary_or(tok)
 
     tok = get_token()
-    ret = parse_expr(tok)
+    try:
+        ret = parse_expr(tok)
+    except RecursionError:
+        # hundreds of nested parentheses or stacked prefix operators
+        return expr_error("stack exhausted")
     if isinstance(ret, str):
         return ret
     if isinstance(ret, float):
